@@ -436,7 +436,7 @@ def _step(R, W, sc, ev, i, kind, failures, stats, note_write, model):
         if ev.get("write_fault"):
             _do_faulty(R, W, ev, stats, model)
         elif kind == "init":
-            _do_init(R, W, ev, failures, stats, note_write, i)
+            _do_init(R, W, ev, failures, stats, note_write, i, model)
         elif kind == "set":
             _do_set(R, W, ev, failures, stats, note_write, model, i)
         elif kind == "get":
@@ -550,7 +550,7 @@ def _do_faulty(R, W, ev, stats, model):
     model.pop(rel, None)
 
 
-def _do_init(R, W, ev, failures, stats, note_write, step):
+def _do_init(R, W, ev, failures, stats, note_write, step, model=None):
     out = ev["output"] or ".thailint.yaml"
     path = W.proj / out
     before = _read(path)
@@ -570,6 +570,8 @@ def _do_init(R, W, ev, failures, stats, note_write, step):
         return
     if after != before:
         note_write(out, tag)
+    if not merging and r["exit"] == 0 and model is not None:
+        model.pop(out, None)      # --force / creation legitimately replaces whatever the file held
     if merging and valid_before:
         stats["merges"] += 1
         doc_after, err_after = _parse_yaml_bytes(after)
